@@ -234,9 +234,14 @@ def check(case, out):
         # the public algorithm object Lanczos(max_iters, tol, key)(A) with its default (keyed) start vector, after the same
         # object has been applied to a smaller operator: the factorisation predicates hold with v := the start it drew
         L = cola.linalg
-        algo = L.Lanczos(max_iters=mi, tol=max(tol, 1e-12), key=case["seed"] % 1000 + 1)
-        if n >= 3:
-            call(lambda: algo(cola.SelfAdjoint(cola.ops.Dense(np.diag(np.arange(1.0, n - 1.0)) + 0.5 * np.ones((n - 2, n - 2))))))
+        explicit = case["seed"] % 2 == 0  # an explicit start vector held by the object (real, or complex for a real operator)
+        if explicit:
+            out.label("alg_object:start_vector")
+            algo = L.Lanczos(start_vector=v.copy(), max_iters=mi, tol=max(tol, 1e-12))
+        else:
+            algo = L.Lanczos(max_iters=mi, tol=max(tol, 1e-12), key=case["seed"] % 1000 + 1)
+            if n >= 3:
+                call(lambda: algo(cola.SelfAdjoint(cola.ops.Dense(np.diag(np.arange(1.0, n - 1.0)) + 0.5 * np.ones((n - 2, n - 2))))))
         res = call(lambda: algo(A))
         if res is None:
             return
@@ -245,7 +250,7 @@ def check(case, out):
         if Qd.shape[1] == 0:
             out.fail(sub, site, "no_columns", "")
             return
-        cols = verify(out, sub, site, M, Qd[:, 0].copy(), Q, T, mi, max(tol, 1e-12), span_upto=2 if case["spec"] == "clustered" else 6)
+        cols = verify(out, sub, site, M, v if explicit else Qd[:, 0].copy(), Q, T, mi, max(tol, 1e-12), span_upto=2 if case["spec"] == "clustered" else 6)
         gq = KR.krylov_basis(lambda q: M @ q, Qd[:, 0], n + 1, tol=max(1e-5, 100 * tol)).shape[1]
         if not out.failures and case["spec"] in ("simple", "indefinite") and case["op"] == "dense" and cols < min(mi, gq):
             out.fail(sub, site, "too_few_columns", f"{cols} columns although min(max_iters={mi}, Krylov dimension {gq}) are due (n={n})")
@@ -299,6 +304,10 @@ def check(case, out):
             return
         if np.any(np.diff(th.real) < -1e-10 * scale):
             out.fail(sub, site, "not_ascending", str(th[:6]))
+        # "the corresponding Ritz pairs": as many as lanczos itself returns columns for the same arguments
+        ref = call(lambda: lanczos(A, v.copy(), max_iters=mi, tol=tol))
+        if ref is not None and np.asarray(ref[0].to_dense()).shape[1] != th.shape[0]:
+            out.fail(sub, site, "ritz_count", f"{th.shape[0]} Ritz pairs, lanczos with the same max_iters={mi} and tol={tol:g} returns {np.asarray(ref[0].to_dense()).shape[1]} columns")
         # Ritz pairs: theta_i = v_i^H M v_i and residual orthogonal to the Krylov space: V^H (M V - V diag(theta)) = 0
         k = Vd.shape[1]
         G = Vd.conj().T @ (M @ Vd) - np.diag(th)
